@@ -367,6 +367,24 @@ def R(x):
 # --------------------------------------------------------------------------------------
 # hypothesis context
 # --------------------------------------------------------------------------------------
+class KernelTimeout(Exception):
+    """the unit's wall-clock budget ran out inside a kernel computation (normal-form blow-up)"""
+
+
+DEADLINE = None          # absolute time; set by the unit runner of this process
+_tick = [0]
+
+
+def _check_deadline():
+    if DEADLINE is None:
+        return
+    _tick[0] += 1
+    if _tick[0] % 64 == 0:
+        import time as _t
+        if _t.time() > DEADLINE:
+            raise KernelTimeout()
+
+
 class Infeasible(Exception):
     """the path condition is contradictory: the path is pruned (counted, no obligations)"""
 
@@ -411,6 +429,7 @@ class PCtx:
             changed = False
             guard += 1
             assert guard < 100
+            _check_deadline()
             vs = p.vars()
             for v in vs:
                 if v in self.subs:
@@ -428,6 +447,7 @@ class PCtx:
             for r in self.rels:
                 dv = p.degree(r.v)
                 while dv >= r.deg and not p.is_zero():
+                    _check_deadline()
                     cs = p.coeffs(r.v)
                     lead = cs[-1]
                     # p := lc*p - lead * v^(dv-deg) * r.p     (lc is a unit)
